@@ -3,7 +3,7 @@
    program grammar (whitespace separated tokens):
      block := "(" stmt* ")"
      stmt  := E k | D d block | K n k1 late1..kn laten | O block | I c block block | W c block | P block c
-            | F n block | S c "[" (block ft)* "]" block | X block | N e | B | C | R e | V | L void block
+            | F n block | S c "[" (block ft)* "]" block | X block | N e | B | C | R n e1..en | V | L void block
    Output: <ref outcome>;<ref trace> TAB <tgt outcome>;<tgt trace> TAB <tokens of the compiled program> TAB <accepted p> *)
 open Model
 open Zutil
@@ -46,7 +46,9 @@ let parse_prog (toks : string array) (pos : int ref) : block =
     | "N" -> In (num ())
     | "B" -> Break
     | "C" -> Continue
-    | "R" -> Return (num ())
+    | "R" -> let n = int_of_string (next ()) in
+      let rec es i = if i = 0 then [] else let e = num () in e :: es (i - 1) in
+      Return (es n)
     | "V" -> ReturnVoid
     | "L" -> let v = next () = "1" in let b = block () in FnCall (v, b)
     | t -> raise (Parse ("bad statement token " ^ t))
@@ -68,6 +70,16 @@ let out_str = function
 
 let res_str ((o, s) : res) : string =
   out_str o ^ ";" ^ String.concat " " (List.rev_map ev_str s.tr)
+
+let rec ret_arity (l : tstmt list) : int =
+  List.fold_left (fun acc s -> if acc > 0 then acc else
+    match s with
+    | TReturn (es, _) -> List.length es
+    | TDo l | TDeferred l | TWhile (_, l) | TRepeat l | TFor (_, l) | TStmtExpr l -> ret_arity l
+    | TIf (_, t, e) -> let a = ret_arity t in if a > 0 then a else ret_arity e
+    | TSwitch (_, cs, d) -> let a = List.fold_left (fun acc l -> if acc > 0 then acc else ret_arity l) 0 cs in if a > 0 then a else ret_arity d
+    | TUntil (_, cl) | TIn (_, cl, _) | TContinueR (_, cl) -> ret_arity cl
+    | _ -> 0) 0 l
 
 let rec toks (b : Buffer.t) (l : tstmt list) : unit = List.iter (tok b) l
 and add b s = Buffer.add_string b s; Buffer.add_char b ' '
@@ -98,10 +110,13 @@ and tok (b : Buffer.t) (s : tstmt) : unit =
   | TGotoBreak -> add b "gotobreak"
   | TContinue -> add b "continue"
   | TContinueR (c, cl) -> add b "stop="; addn b "C" c; toks b cl; add b "continue"
-  | TReturn (e, cl) ->
-    addn b "R" e; toks b cl; add b "return"
+  | TReturn (es, cl) ->
+    List.iter (fun e -> addn b "R" e) es; toks b cl; add b "return"
   | TReturnVoid -> add b "return"
-  | TCall (v, l) -> if not v then add b "V"; add b "call("; toks b l; add b ")"
+  | TCall (v, l) ->
+    (* one V per returned value: the arity of the callee is that of its return statements *)
+    if not v then (for _ = 1 to max 1 (ret_arity l) do add b "V" done);
+    add b "call("; toks b l; add b ")"
 
 let () =
   iter_lines (fun line ->
